@@ -52,6 +52,34 @@ Theorem C05_history_nonvacuous :
 Proof. exact history_example. Qed.
 Print Assumptions C05_history_nonvacuous.
 
+(* the same from Session.Run onwards (the handlers of the session are registered by Run, the
+   initiator's Logon is the first numbered message): construction, whatever the application
+   registers before Run, Run, then any history *)
+From SF Require Import Session_hist Session_c10.
+Theorem C05_session_numbering :
+  forall cfg ci c store pre ops sp op s0 o0 s' os,
+    c_fail_saves cfg = nil ->
+    (forall k m, store_get store k = Some m -> (seq_of m <= c)%Z) ->
+    Forall op_clean pre -> run_ops cfg (init_state cfg ci c store) pre = (sp, op) ->
+    run_session cfg sp = (s0, o0) ->
+    Forall op_clean ops ->
+    run_ops cfg s0 ops = (s', os) ->
+    let sent := wire_seqs (concat op ++ o0 ++ concat os) in
+    exists w',
+      numbered c sent w'
+      /\ fresh c sent = zrange c (Z.to_nat (w' - c))
+      /\ (w' <= s_cnt_out s')%Z /\ (s_router_stopped s' = false -> w' = s_cnt_out s').
+Proof. exact C05_session. Qed.
+Print Assumptions C05_session_numbering.
+
+(* non-vacuous: a run session in which the peer logs on, the application sends and the peer asks
+   for a retransmission has wire numbers 1,2,3 and then the retransmitted 2,3 *)
+Theorem C05_session_nonvacuous :
+  wire_seqs (concat (snd (run_ops ex5_cfg (fst ex10_run) (ex10_ops ++ (Inbound (ex10_resend 2 3) :: nil)))))
+  = (1 :: 2 :: 3 :: 2 :: 3 :: nil)%Z.
+Proof. vm_compute. reflexivity. Qed.
+Print Assumptions C05_session_nonvacuous.
+
 (* ---- concurrency layer ---- *)
 From Coq Require Import String List NArith.
 From SF Require Import Conc Sites.
